@@ -11,6 +11,7 @@ func init() {
 			ruleEncodeRO(c)
 			rulePure(c)
 			ruleDelegate(c, []string{"Marshal"})
+			ruleEfaceDirect(c)
 		},
 	})
 }
